@@ -2,6 +2,7 @@ package main
 
 import (
 	"fmt"
+	"go/token"
 	"go/types"
 	"sort"
 
@@ -295,6 +296,10 @@ func ruleStoreAdmission(c *Ctx) {
 		return ok && (resultOfCall(getAddrS)(b.X) || resultOfCall(getAddrS)(b.Y)) && (resultOfCall(getAddrM)(b.X) || resultOfCall(getAddrM)(b.Y))
 	}, []Ev{guardCall("!IsTombstone()", false, callMatcher(isTomb)), guardCall("!IsPhysicallyDestroyed()", false, callMatcher(isDestroyed))}, all,
 		"only tombstone or physically destroyed stores are skipped by the duplicate-address test")
+	// … and by nothing else: inside the scan, the only tests standing between a registered store and the address
+	// comparison are "tombstone", "physically destroyed", "is it the store being put" (id ≠ id) and nil tests; an
+	// offline store, or a store with a smaller id, is compared like any other
+	ruleAddressScanSkips(c, rule, impl, getAddrS, getAddrM, isTomb, isDestroyed)
 	// a re-registration keeps the store's lifecycle state: what is stored for a known id is a clone of the
 	// registered store (address, version, labels, start time updated), never a fresh record built from the request —
 	// the request always says Up
@@ -506,5 +511,83 @@ func ruleRegistrationChecksUnderLock(c *Ctx) {
 	}
 	if n < 2 {
 		c.Undec(rule, "reads of the registered stores in "+fnName(impl), "at least 2 (address scan, lookup)", "", fmt.Sprint(n))
+	}
+}
+
+func ruleAddressScanSkips(c *Ctx, rule string, impl *ssa.Function, getAddrS, getAddrM, isTomb, isDestroyed Callee) {
+	P := c.P
+	mpb := "github.com/pingcap/kvproto/pkg/metapb"
+	idGetters := []Callee{F(P.Method(mpb, "Store", "GetId")), F(P.Method("server/core", "StoreInfo", "GetID"))}
+	isID := func(v ssa.Value) bool {
+		for _, g := range idGetters {
+			if resultOfCall(g)(v) {
+				return true
+			}
+		}
+		return false
+	}
+	isAddr := func(v ssa.Value) bool { return resultOfCall(getAddrS)(v) || resultOfCall(getAddrM)(v) }
+	n := 0
+	for _, fn := range withCallees(impl, 1) {
+		var cmpBlock *ssa.BasicBlock
+		for _, b := range fn.Blocks {
+			for _, ins := range b.Instrs {
+				if bo, ok := ins.(*ssa.BinOp); ok && isAddr(bo.X) && isAddr(bo.Y) {
+					cmpBlock = b
+				}
+			}
+		}
+		if cmpBlock == nil {
+			continue
+		}
+		var loop *loopInfo
+		for _, l := range loopsOf(fn) {
+			l := l
+			if l.blocks[cmpBlock] && (loop == nil || len(l.blocks) < len(loop.blocks)) {
+				loop = &l
+			}
+		}
+		if loop == nil {
+			continue
+		}
+		n++
+		bad, where := "", P.pos(fn.Pos())
+		for b := range loop.blocks {
+			iff, ok := b.Instrs[len(b.Instrs)-1].(*ssa.If)
+			if !ok {
+				continue
+			}
+			if b == loop.header && (!loop.blocks[b.Succs[0]] || !loop.blocks[b.Succs[1]]) {
+				continue // the loop's own exit test
+			}
+			for _, leaf := range condLeaves(iff.Cond) {
+				v, _ := normCond(leaf.v, true)
+				v = strip(v)
+				okLeaf := false
+				switch x := v.(type) {
+				case *ssa.Call:
+					okLeaf = isTomb.Match(&x.Call) || isDestroyed.Match(&x.Call)
+				case *ssa.BinOp:
+					switch {
+					case isAddr(x.X) && isAddr(x.Y):
+						okLeaf = x.Op == token.EQL || x.Op == token.NEQ
+					case isID(x.X) && isID(x.Y):
+						okLeaf = x.Op == token.EQL || x.Op == token.NEQ
+						if !okLeaf && bad == "" {
+							bad, where = "the put store is told apart by an ordering of ids ("+x.Op.String()+"), not by identity", P.instrPos(iff)
+						}
+					case isNilConst(x.X) || isNilConst(x.Y):
+						okLeaf = true
+					}
+				}
+				if !okLeaf && bad == "" {
+					bad, where = "a further test decides whether a registered store is compared: "+v.String(), P.instrPos(iff)
+				}
+			}
+		}
+		c.Check(bad == "", rule, "tests inside the duplicate-address scan of "+fnName(fn), "a registered store is left out of the comparison only for being tombstone, physically destroyed or the put store itself (id identity)", where, bad)
+	}
+	if n == 0 {
+		c.Undec(rule, "duplicate-address scan loop in "+fnName(impl), "found", P.pos(impl.Pos()), "no loop holds an address comparison")
 	}
 }
